@@ -15,6 +15,7 @@ import ast
 
 import sympy as sp
 
+from ..core import spelling
 from ..core.astutil import norm, ParentMap
 from ..core.cfg import CFG
 from ..core.loader import walk_no_nested
@@ -389,7 +390,7 @@ def _formulas(prog, rep):
         body = [s for s in f.node.body if not (isinstance(s, ast.Expr) and isinstance(s.value, ast.Constant))]
         env, vn = result_term(prog, f, body)
         got = env.get('<return>')
-        rbody = _ast.parse(ref).body
+        rbody = spelling.parse(ref).body
         p = f.params[0]
         refp = 'W' if 'W' in ref.split('=')[1] or '(W' in ref else 'A'
         renv, rvn = result_term(prog, f, rbody, param_map={refp: p})
